@@ -251,3 +251,75 @@ def sampling(tier, rng, rep):
                     rep.fail("inverse", "(A@B).inv() @ ((A@B) @ X) != X (the inverses of A and B had been computed before the product)", inp)
             rep.attempt("action_runs", inp, laws)
             rep.case(key=(t, cls), nontrivial=(shape != () or cplx), sample={k: inp[k] for k in ("class", "n", "shape", "complex")} if t < 1 else None)
+
+
+@bounded(P, "generators_of_mixed_types", functions=["geometry_tools/representation.py:Representation.elements", "geometry_tools/representation.py:Representation._word_value",
+                                                     "geometry_tools/representation.py:Representation._set_generator", PR + "ProjectiveRepresentation.transformations",
+                                                     HY + "HyperbolicRepresentation.isometries"],
+         note="a representation whose generators have different entry types (complex / float / integer), assigned in every order: a word's image through rep[w], element, elements, "
+              "transformations / isometries acts on a point as the word's matrix (real or complex) acts on the coordinate vector")
+def generators_of_mixed_types(tier, rng, rep):
+    import itertools
+    from geometry_tools.representation import Representation
+    N = 40 if tier == 'thorough' else 10
+    rep.rule = ("generators a, b, c with dtypes drawn from {complex128, float64, int64, float32} (not all equal), every assignment order; words to length 5 with inverse letters; "
+                "evaluation routes: rep[w], element(w), elements([..]), transformations([..]) / isometries([..]); n = 1, 2")
+    rep.bound = f"{N} rounds x 6 assignment orders x 5 routes"
+    dts = [np.complex128, np.float64, np.int64, np.float32]
+    for t in range(N):
+        n = 1 + t % 2
+        kinds = [dts[int(i)] for i in rng.choice(4, size=3)]
+        if len(set(kinds)) == 1:
+            kinds[0] = dts[(dts.index(kinds[0]) + 1) % 4]
+        gens = {}
+        for g, dt in zip("abc", kinds):
+            while True:
+                M = rng.integers(-2, 3, size=(n + 1, n + 1)).astype(float)
+                if abs(abs(np.linalg.det(M)) - 1) < 1e-9:
+                    break
+            if dt is np.complex128:
+                M = M * np.exp(1j * rng.uniform(0.3, 2.5))            # unimodular factor: the projective map has a complex matrix
+                M = M + 0j
+            gens[g] = M.astype(dt)
+        ref = {g: np.asarray(M, dtype=complex) for g, M in gens.items()}
+        ref.update({g.upper(): np.linalg.inv(M) for g, M in list(ref.items())})
+        x = rng.normal(size=n + 1) + 1j * rng.normal(size=n + 1)
+        words = ["".join(rng.choice(list("abcABC"), size=int(rng.integers(1, 6)))) for _ in range(4)] + ["ab", "cA"]
+        for order in itertools.permutations("abc"):
+            inp = {"n": n, "dtypes": {g: np.dtype(k).name for g, k in zip("abc", kinds)}, "assignment_order": "".join(order), "generators": {g: np.asarray(M).astype(complex).view(float).tolist() for g, M in gens.items()}}
+
+            def body():
+                plain = Representation()
+                proj = pr.ProjectiveRepresentation()
+                for g in order:
+                    plain[g] = gens[g].copy()
+                    proj[g] = pr.Transformation(gens[g].copy(), column_vectors=True)
+                want = []
+                for w in words:
+                    Nw = np.identity(n + 1, dtype=complex)
+                    for ch in w:
+                        Nw = Nw @ ref[ch]
+                    want.append(Nw)
+                routes = {
+                    "getitem": lambda: [np.asarray(plain[w]) for w in words],
+                    "element": lambda: [np.asarray(plain.element(w)) for w in words],
+                    "elements": lambda: list(np.asarray(plain.elements(list(words)))),
+                    "projective_getitem": lambda: [np.asarray(proj[w].proj_data).T for w in words],
+                    "transformations": lambda: [np.asarray(m).T for m in np.asarray(proj.transformations(list(words)).proj_data)],
+                }
+                for rname, f in routes.items():
+                    got = f()
+                    for w, G, W in zip(words, got, want):
+                        G = np.asarray(G, dtype=complex)
+                        y1, y2 = G @ x, W @ x
+                        # projective comparison of the image points (the plain representation is compared entry by entry)
+                        cr = np.outer(y1, y2) - np.outer(y2, y1)
+                        ok = np.all(np.abs(cr) <= 1e-7 * (1 + np.abs(y1).max() * np.abs(y2).max())) and np.abs(y1).max() > 1e-12
+                        if ok and not rname.startswith("proj") and rname != "transformations":
+                            ok = bool(np.all(np.abs(G - W) <= 1e-5 * (1 + np.abs(W).max())))
+                        if not ok:
+                            rep.fail("word_image_is_the_word_matrix", f"route {rname}, word {w!r}: {G.tolist()} vs {W.tolist()}", {**inp, "route": rname, "word": w}); return
+            rep.attempt("representation_runs", inp, body)
+            rep.case(key=(t, order), nontrivial=True, sample=inp if (t, order) == (0, ("a", "b", "c")) else None)
+            if len(rep.failures) >= 3:
+                return
